@@ -7,7 +7,7 @@
               "badcase ..."    (harness or model defect: unparsable case, or the oracle fails on the model) *)
 From Coq Require Import List String Ascii Bool Arith NArith.
 Import ListNotations.
-Require Import SDJ.Json SDJ.Wire SDJ.Model2 SDJ.Out SDJ.Restore2 SDJ.Split SDJ.SplitM SDJ.Spec SDJ.RefVerify SDJ.Verify SDJ.CaseLib SDJ.Issuer2 SDJ.CaseIssue SDJ.CasePresent SDJ.CaseJwt SDJ.CaseHistory SDJ.CaseYaml SDJ.CaseConform.
+Require Import SDJ.Json SDJ.Wire SDJ.Model2 SDJ.Out SDJ.Restore2 SDJ.Split SDJ.SplitM SDJ.Spec SDJ.RefVerify SDJ.Verify SDJ.CaseLib SDJ.Issuer2 SDJ.CaseIssue SDJ.CasePresent SDJ.CaseJwt SDJ.CaseHistory SDJ.CaseYaml SDJ.CaseConform SDJ.CaseUnit.
 Local Open Scope string_scope.
 
 (* ---- C10 / kind "split": sd_jwt_parts on an arbitrary string ---- *)
@@ -93,6 +93,7 @@ Definition run_case (kind : string) (input obs : json) : verdict :=
   else if String.eqb kind "yaml" then case_yaml input obs
   else if String.eqb kind "conform" then case_conform input obs
   else if String.eqb kind "discbuild" then case_discbuild input obs
+  else if String.eqb kind "unit" then case_unit input obs
   else VBad ("unknown kind " ++ kind).
 
 Definition run_line (kind input obs : string) : string :=
